@@ -39,6 +39,7 @@ import (
 	"path/filepath"
 	"strings"
 	"sync"
+	"sync/atomic"
 	"syscall"
 	"testing"
 	"time"
@@ -71,9 +72,24 @@ const (
 	// semaphore timeout of a query the model expects to be admitted: never elapses when a slot is
 	// free; it is long so that a stalled scheduler cannot turn a free slot into a spurious rejection
 	admitKA = 3 * time.Second
+	// the same once a violation has been found in this process, i.e. while rapid minimises the witness (every
+	// failing attempt otherwise costs the full 3 s and rapid's inner minimisation loops are not time-bounded)
+	admitKAShrinking = 300 * time.Millisecond
 	// bound on every single wait of the harness; exceeding it is INCONCLUSIVE, never a violation
 	waitMax = 25 * time.Second
 )
+
+var (
+	violationSeen atomic.Bool  // a violation was reported by an earlier case of this process
+	gaveUp        atomic.Value // string: an earlier case ran into the wait bound; nothing after it is trustworthy
+)
+
+func admitTimeout() time.Duration {
+	if violationSeen.Load() {
+		return admitKAShrinking
+	}
+	return admitKA
+}
 
 // C31_NO_SEMLEN=1 switches the len(sem) clause off (sensitivity experiments: behaviour only)
 var noSemLen = os.Getenv("C31_NO_SEMLEN") != ""
@@ -83,12 +99,12 @@ func TestMain(m *testing.M) {
 		"start (a query that blocks while executing: engine = LowMem query whose first column file is a FIFO, distributed = stub Querier with a harness-owned result channel), " +
 		"start-error (a query that fails after admission: engine = unknown interface / unparsable DB directory, distributed = host selector 'any' with a Querier that cannot list hosts / resolver error), " +
 		"start-precancelled (context already cancelled), release i (good bytes / garbage / short write / immediate close; distributed: rows / host error / closed channel), " +
-		"cancel i then release it, distributed only: cancel i without any host reply, handoff (start j while all slots are taken and release i without waiting, semaphore timeout 1 ms / 30 ms / 3 s); " +
+		"cancel i then release it, distributed only: cancel i without any host reply, handoff (start j while all slots are taken and release i without waiting, semaphore timeout 1 ms / 30 ms / 300 ms); " +
 		"then all remaining queries are released and L+1 fresh queries probe the slots; " +
 		"non-trivial = the burst contains >= 1 rejected, >= 1 failed (failed read or error return after admission) and >= 1 cancelled query; distinct by the JSON of (backend, L, events, drain mode)")
 	evid.Assume("a query whose FIFO has been opened by a worker (engine) / whose Querier.Query call was entered (distributed) and which the harness has not released is executing; nothing else counts as executing",
 		"the channel handed to WithMaxConcurrent is the semaphore itself (as in pkg/api/goprobe/server and pkg/api/globalquery/server), so len(sem) at a quiescent point is the number of slots in use (clause C31:sem-len; C31_NO_SEMLEN=1 disables it)",
-		"queries the model expects to be admitted use keepalive (= semaphore timeout) 3 s, queries it expects to be rejected 30 ms: a rejection of a query below the limit is only reported after the engine itself waited 3 s for a slot",
+		"queries the model expects to be admitted use keepalive (= semaphore timeout) 3 s, queries it expects to be rejected 30 ms: a rejection of a query below the limit is only reported after the runner itself waited 3 s for a slot (300 ms while rapid minimises an already found violation)",
 		"engine: a cancelled query whose worker is blocked in a read keeps executing until the read returns (the worker cannot be interrupted), so cancel is always followed by releasing the FIFO before the next event; what the slot does between cancel and read return is not asserted",
 		"a query that is started beyond the limit with an already cancelled context or that would fail after admission may be answered with 'too many requests' or with an error; it must not execute",
 		"all engine queries of a burst have the same attributes (sip) and LowMem=true, so the QueryRunner's unsynchronised per-run fields (query, keepAlive) hold equal values whichever Run wrote them last",
@@ -557,6 +573,11 @@ type verdict struct {
 	sig          string // "" = inconclusive
 	msg          string
 	inconclusive bool
+	hung         bool // a wait bound elapsed
+}
+
+func hung(format string, a ...any) *verdict {
+	return &verdict{inconclusive: true, hung: true, msg: fmt.Sprintf(format, a...)}
 }
 
 func violation(sig, format string, a ...any) *verdict {
@@ -641,7 +662,7 @@ func (b *burst) await(q *qry) (entered bool, v *verdict) {
 		}
 		return false, nil
 	case <-tm.C:
-		return false, inconclusive("%s neither started executing nor returned within %v", q.name, waitMax)
+		return false, hung("%s neither started executing nor returned within %v", q.name, waitMax)
 	}
 }
 
@@ -656,7 +677,7 @@ func (b *burst) awaitDone(q *qry) *verdict {
 		}
 		return nil
 	case <-tm.C:
-		return inconclusive("%s did not return within %v after it was released / cancelled", q.name, waitMax)
+		return hung("%s did not return within %v after it was released / cancelled", q.name, waitMax)
 	}
 }
 
@@ -686,7 +707,7 @@ func (b *burst) quiescent(after string) *verdict {
 // start starts one query and checks the admission clause.
 func (b *burst) start(prefix string, kind int, preCancel bool) *verdict {
 	full := len(b.exec) >= b.L
-	ka := admitKA
+	ka := admitTimeout()
 	if full {
 		ka = rejectKA
 	}
@@ -805,7 +826,7 @@ func (b *burst) pick(sel int, uncancelledOnly bool) *qry {
 	return c[sel%len(c)]
 }
 
-var handoffKA = []time.Duration{time.Millisecond, rejectKA, admitKA}
+var handoffKA = []time.Duration{time.Millisecond, rejectKA, admitKAShrinking}
 
 func (b *burst) apply(o op) *verdict {
 	isStart := o.K == "start" || o.K == "starterr" || o.K == "startpc" || o.K == "handoff"
@@ -1000,12 +1021,21 @@ func runCase(c caseSpec) (b *burst, v *verdict) {
 
 func check(t *rapid.T, backend string) {
 	c := genCase(t, backend)
+	if m, _ := gaveUp.Load().(string); m != "" {
+		t.Fatalf("INCONCLUSIVE[C31 %s: an earlier case did not make progress: %s]", backend, m)
+	}
 	b, v := runCase(c)
 	canon, _ := json.Marshal(c)
 	if v != nil {
 		hist := ""
 		if b != nil {
 			hist = "\nhistory:\n  " + strings.Join(b.hist, "\n  ")
+		}
+		if v.hung {
+			gaveUp.Store(v.msg)
+		}
+		if !v.inconclusive {
+			violationSeen.Store(true)
 		}
 		if v.inconclusive {
 			t.Fatalf("INCONCLUSIVE[C31 %s: %s]\ncase: %s%s", backend, v.msg, canon, hist)
